@@ -29,6 +29,12 @@ pub struct HugeFan {
     pub repeated_line: bool,
     /// is the single attacker of the repeated-line mode itself defeated?
     pub attacker_defeated: bool,
+    /// isolated self-attacking arguments (in no extension, in nobody's way) whose labels sit between the
+    /// core arguments `..split` and `split..`: the core's ids are 2^16 or 2^17 apart
+    #[serde(default)]
+    pub fillers: u32,
+    #[serde(default)]
+    pub split: u8,
 }
 
 pub fn strategy() -> BoxedStrategy<HugeFan> {
@@ -42,6 +48,13 @@ pub fn strategy() -> BoxedStrategy<HugeFan> {
     )
         .prop_filter("needs a core argument", |(g, ..)| g.n >= 1)
         .prop_map(|(core, target, k, d, repeated_line, attacker_defeated)| {
+            // a third of the small fans carry 2^16 or 2^17 (and a few) self-attacking fillers in the middle of the
+            // core's labels instead: ids, counters and stamps that wrap after 65536 steps
+            let (fillers, split) = if k < 300 && d % 3 == 0 {
+                ([65_530u32, 65_533, 65_534, 65_535, 65_536, 65_537, 131_069, 131_071, 131_072][(d / 3) as usize % 9] + (d / 27) % 3, (d / 81) as u8)
+            } else {
+                (0, 0)
+            };
             let defeated = match d % 5 {
                 0 => k,
                 1 => k - 1,
@@ -49,7 +62,7 @@ pub fn strategy() -> BoxedStrategy<HugeFan> {
                 3 => 1.min(k),
                 _ => d % (k + 1),
             };
-            HugeFan { core, target, k, defeated, repeated_line, attacker_defeated }
+            HugeFan { core, target, k, defeated, repeated_line, attacker_defeated, fillers, split }
         })
         .boxed()
 }
@@ -73,6 +86,11 @@ struct Layout {
     att: Vec<(usize, usize)>,
     /// does some attacker of the fan survive (so that the target is defeated by the grounded extension)?
     target_defeated_by_fan: bool,
+    /// first filler node (fillers are the last nodes); == n without fillers
+    first_filler: usize,
+    /// label - 1 of every node, and its inverse: the fillers' labels come after the first `split` core labels
+    label_of: Vec<usize>,
+    node_of: Vec<usize>,
 }
 
 fn layout(c: &HugeFan) -> Layout {
@@ -108,7 +126,28 @@ fn layout(c: &HugeFan) -> Layout {
         }
         survives = c.defeated < c.k;
     }
-    Layout { n, core_n, target, att, target_defeated_by_fan: survives }
+    let first_filler = n;
+    let fillers = c.fillers as usize;
+    for f in 0..fillers {
+        att.push((first_filler + f, first_filler + f));
+    }
+    n += fillers;
+    let split = (c.split as usize) % (core_n + 1);
+    let mut label_of = vec![0usize; n];
+    for node in 0..n {
+        label_of[node] = if node < split {
+            node
+        } else if node < first_filler {
+            node + fillers
+        } else {
+            split + (node - first_filler)
+        };
+    }
+    let mut node_of = vec![0usize; n];
+    for (node, l) in label_of.iter().enumerate() {
+        node_of[*l] = node;
+    }
+    Layout { n, core_n, target, att, target_defeated_by_fan: survives, first_filler, label_of, node_of }
 }
 
 pub fn text(c: &HugeFan) -> String {
@@ -116,10 +155,10 @@ pub fn text(c: &HugeFan) -> String {
     let mut s = String::with_capacity(16 * lay.att.len() + 16 * c.k as usize);
     s.push_str(&format!("p af {}\n", lay.n));
     for (a, b) in &lay.att {
-        s.push_str(&format!("{} {}\n", a + 1, b + 1));
+        s.push_str(&format!("{} {}\n", lay.label_of[*a] + 1, lay.label_of[*b] + 1));
     }
     if c.repeated_line {
-        let l = format!("{} {}\n", lay.core_n + 1, lay.target + 1);
+        let l = format!("{} {}\n", lay.label_of[lay.core_n] + 1, lay.label_of[lay.target] + 1);
         for _ in 1..c.k {
             s.push_str(&l);
         }
@@ -167,19 +206,23 @@ fn read(c: &HugeFan, pid: &str) -> Result<AAFramework<usize>, Failure> {
 
 fn describe(c: &HugeFan) -> String {
     format!(
-        "core {:?}, target node {}, {} {}, defeated {}",
+        "core {:?}, target node {}, {} {}, defeated {}, {fillers} self-attacking fillers after the first {split} core labels",
         c.core,
         idx(c.target, c.core.n),
         c.k,
         if c.repeated_line { "repeats of one attack line" } else { "distinct attackers" },
-        if c.repeated_line { c.attacker_defeated as u32 } else { c.defeated }
+        if c.repeated_line { c.attacker_defeated as u32 } else { c.defeated },
+        fillers = c.fillers,
+        split = c.split
     )
 }
 
-fn set_of(v: &[&crustabri::aa::Argument<usize>], n: usize, pid: &str, what: &str) -> Result<Vec<bool>, Failure> {
+fn set_of(v: &[&crustabri::aa::Argument<usize>], node_of: &[usize], pid: &str, what: &str) -> Result<Vec<bool>, Failure> {
+    let n = node_of.len();
     let mut s = vec![false; n];
     for a in v {
-        let i = *a.label() - 1;
+        let l = *a.label() - 1;
+        let i = if l < n { node_of[l] } else { n };
         if i >= n || s[i] {
             return Err(Failure::new(format!("{}/huge-fan/{}/foreign-or-duplicate-member", pid, what), format!("label {}", a.label())));
         }
@@ -197,7 +240,7 @@ pub fn run_grounded(pid: &str, c: &HugeFan, rec: &mut Rec) -> CheckResult {
     rec.class(&format!("huge-fan-{}", if c.k >= 1_000_000 { "in-degree-above-2^20" } else if c.k >= 60_000 { "in-degree-above-2^16" } else { "small" }));
     let nodes: Vec<usize> = {
         let mut v: Vec<usize> = (0..lay.core_n).collect();
-        v.extend([lay.core_n, lay.n - 1, lay.n / 2]);
+        v.extend([lay.core_n.min(lay.n - 1), lay.n - 1, lay.n / 2, lay.first_filler.min(lay.n - 1)]);
         v.sort();
         v.dedup();
         v
@@ -205,11 +248,11 @@ pub fn run_grounded(pid: &str, c: &HugeFan, rec: &mut Rec) -> CheckResult {
     match pid {
         "C01" => {
             rec.evals(3);
-            let own = guard(|| set_of(&af.grounded_extension(), lay.n, pid, "AAFramework::grounded_extension")).map_err(|p| Failure::new("C01/huge-fan/panic", p))??;
+            let own = guard(|| set_of(&af.grounded_extension(), &lay.node_of, pid, "AAFramework::grounded_extension")).map_err(|p| Failure::new("C01/huge-fan/panic", p))??;
             if own != gr {
                 return Err(Failure::new("C01/huge-fan/AAFramework::grounded_extension/wrong-set", describe(c)));
             }
-            let se = guard(|| GroundedSemanticsSolver::new(&af).compute_one_extension().map(|e| set_of(&e, lay.n, pid, "SE-GR")))
+            let se = guard(|| GroundedSemanticsSolver::new(&af).compute_one_extension().map(|e| set_of(&e, &lay.node_of, pid, "SE-GR")))
                 .map_err(|p| Failure::new("C01/huge-fan/panic", p))?;
             match se {
                 Some(Ok(s)) if s == gr => {}
@@ -220,7 +263,7 @@ pub fn run_grounded(pid: &str, c: &HugeFan, rec: &mut Rec) -> CheckResult {
         "C02" => {
             for a in nodes {
                 rec.eval();
-                let lab = a + 1;
+                let lab = lay.label_of[a] + 1;
                 let got = guard(|| GroundedSemanticsSolver::new(&af).is_credulously_accepted(&lab)).map_err(|p| Failure::new("C02/huge-fan/panic", p))?;
                 if got != gr[a] {
                     return Err(Failure::new(format!("C02/huge-fan/DC-GR/got-{}-expected-{}", got, gr[a]), format!("argument {}; {}", lab, describe(c))));
@@ -230,7 +273,7 @@ pub fn run_grounded(pid: &str, c: &HugeFan, rec: &mut Rec) -> CheckResult {
         _ => {
             for a in nodes {
                 rec.evals(2);
-                let lab = a + 1;
+                let lab = lay.label_of[a] + 1;
                 let got = guard(|| GroundedSemanticsSolver::new(&af).is_skeptically_accepted(&lab)).map_err(|p| Failure::new("C03/huge-fan/panic", p))?;
                 let (got_c, cert) = guard(|| {
                     let mut s = GroundedSemanticsSolver::new(&af);
@@ -295,7 +338,7 @@ pub fn run_equiv(c: &HugeFan, rec: &mut Rec) -> CheckResult {
     let r = guard(|| {
         let ec = EquivalencyComputer::new(&af);
         let red = ec.reduced_af();
-        let classes: Vec<Vec<usize>> = red.argument_set().iter().map(|ra| ec.reduced_arg_to_init_args(ra).iter().map(|a| *a.label() - 1).collect()).collect();
+        let classes: Vec<Vec<usize>> = red.argument_set().iter().map(|ra| ec.reduced_arg_to_init_args(ra).iter().map(|a| lay.node_of[*a.label() - 1]).collect()).collect();
         // the inverse mapping of every argument, or, above 200 000 arguments, of the core, the first and
         // last fan arguments and every 4099th one (a class may have a million members)
         let n_all = af.n_arguments();
@@ -303,7 +346,7 @@ pub fn run_equiv(c: &HugeFan, rec: &mut Rec) -> CheckResult {
             .argument_set()
             .iter()
             .filter(|a| n_all <= 200_000 || *a.label() <= 16 || *a.label() + 8 >= n_all || *a.label() % 4099 == 0)
-            .map(|a| (*a.label() - 1, ec.reduced_arg_to_init_args(ec.init_to_reduced_arg(a)).iter().map(|x| *x.label() - 1).collect()))
+            .map(|a| (lay.node_of[*a.label() - 1], ec.reduced_arg_to_init_args(ec.init_to_reduced_arg(a)).iter().map(|x| lay.node_of[*x.label() - 1]).collect()))
             .collect();
         (classes, back)
     });
